@@ -5,6 +5,7 @@ import OxiddModel.Zbdd.Driver
 import OxiddModel.HashTbl.Driver
 import OxiddModel.Mtbdd.Driver
 import OxiddModel.Tdd.Driver
+import OxiddModel.Num.Driver
 import OxiddModel.Dddmp.Driver
 import OxiddModel.VarNames.Driver
 import OxiddModel.Circuit.Driver
@@ -21,6 +22,7 @@ def protos : List (String × Proto) := [
   ("tbl", OxiddModel.HashTbl.proto),
   ("mtbdd", OxiddModel.Mtbdd.proto),
   ("tdd", OxiddModel.Tdd.proto),
+  ("nat", OxiddModel.Num.Driver.proto),
   ("dddmp", OxiddModel.Dddmp.proto),
   ("names", OxiddModel.VarNames.proto),
   ("circ", OxiddModel.Circuit.proto)
